@@ -6,7 +6,7 @@ from hypothesis import strategies as st
 
 from vlib import gen, ref, obs
 from vlib import expr as E
-from vlib.build import build, apply_value
+from vlib.build import build, apply_value, make_method
 from vlib.core import Fail, HarnessInconclusive
 from vlib.nlp import NLP, Rows, diff_rows, close, time_like_vars, random_points, summarize_diff, DMa
 from props import c04, c05
@@ -16,7 +16,7 @@ LEVEL = "exploration"
 BUDGET = {"quick": (8, 45), "thorough": (16, 1000)}
 K = 3
 RULE = ("Generated OCP (all sampling methods, grids) with global scalar/vector/matrix, per-interval (control), per-node (control with include_last) and horizon parameters appearing in "
-        "dynamics, objective terms, constraint bodies and bounds and in an initial guess; a generated history of set_value calls interleaved with queries and limited solves. Oracles: "
+        "dynamics, objective terms, constraint bodies and bounds and in an initial guess; a generated history of set_value calls interleaved with queries, limited solves and re-transcriptions (the same method given again). Oracles: "
         "(i) f, constraint-row multiset and starting point equal those of the same spec with global/horizon parameters replaced by constants (differential); (ii) objective and constraint "
         "instances with per-interval columns equal the reference model using column k on interval k and the extra column at the final node; (iii) after the history, parameter vector and NLP "
         "data equal those of a fresh build with the final values. Non-trivial = per-interval, matrix or horizon parameter, or a set_value after transcription; distinct = SHA-1 of case JSON.")
@@ -88,6 +88,13 @@ def strategy_(draw):
     cons.append({"lhs": [draw(st.sampled_from(tsig))], "rel": draw(st.sampled_from(["<=", ">="])), "rhs": [["+", draw(st.sampled_from(pl)), E.C(draw(gen.small()))]], "grid": None,
                  "include_first": True, "include_last": True})
     sp["constraints"] = cons
+    # A horizon start of exactly 0 written in as a constant makes CasADi drop a product `prev(x)*t0` from a constraint, and with it the
+    # exclusion of the first node: the twin would be a different problem by construction, not by a defect. Keep t0 != 0 there.
+    off_t0 = any(E.has_op(e, "off") and "hp_t0" in E.syms_in(e) for c in cons for k in ("lhs", "rhs", "lb", "ub") for e in c.get(k, []))
+    t0_values = [0.25, 0.5, -1.0] if off_t0 else [0.0, 0.5, -1.0]
+    for d in sp["params"]:
+        if d["name"] == "hp_t0" and d["value"][0][0] not in t0_values:
+            d["value"] = [[draw(st.sampled_from(t0_values))]]
     gp = gen.leaves_of([d for d in sp["params"] if d.get("grid", "") == "" and not d["name"].startswith("hp_")])
     sp["initial"] = []
     xs = [d for d in sp["states"] if not d.get("quad") and d["cols"] == 1]   # set_initial is documented for n-by-1 symbols
@@ -98,14 +105,14 @@ def strategy_(draw):
     # history of value updates
     ops = []
     for _ in range(draw(st.integers(0, 5))):
-        kind = gen.weighted(draw, [("set", 5), ("query", 2), ("solve", 1)])
+        kind = gen.weighted(draw, [("set", 5), ("query", 2), ("solve", 1), ("remethod", 2)])
         if kind == "set":
             d = draw(st.sampled_from(sp["params"]))
             g = d.get("grid", "")
             N = sp["method"]["N"]
             ncol = d["cols"] * (1 if g == "" else (N if g == "control" else N + 1))
             if d["name"].startswith("hp_"):
-                val = [[draw(st.sampled_from([0.5, 1.0, 1.5, 2.0] if d["name"] == "hp_T" else [0.0, 0.5, -1.0]))]]
+                val = [[draw(st.sampled_from([0.5, 1.0, 1.5, 2.0] if d["name"] == "hp_T" else t0_values))]]
             else:
                 val = [[draw(gen.small()) for _ in range(ncol)] for _ in range(d["rows"])]
             ops.append(["set", d["name"], val])
@@ -138,7 +145,7 @@ def nontrivial(case):
     for op in case["ops"]:
         if op[0] in ("query", "solve"):
             seen_q = True
-        elif seen_q:
+        elif op[0] == "set" and seen_q:
             late = True
     return bool(ks - {"global"}) or late
 
@@ -147,11 +154,20 @@ def classify(case):
     labs = ["method:" + case["spec"]["method"]["cls"]] + ["param:" + k for k in sorted(param_kinds(case["spec"]))]
     if any(op[0] == "solve" for op in case["ops"]):
         labs.append("history:solve")
+    seen_q = late = False
+    for op in case["ops"]:
+        if op[0] in ("query", "solve"):
+            seen_q = True
+        elif op[0] == "set" and seen_q:
+            late = True
+        elif op[0] == "remethod" and late:
+            labs.append("history:set-after-transcription-then-retranscribed")
+            break
     seen_q = False
     for op in case["ops"]:
         if op[0] in ("query", "solve"):
             seen_q = True
-        elif seen_q:
+        elif op[0] == "set" and seen_q:
             labs.append("history:set-after-transcription")
             break
     return sorted(set(labs))
@@ -174,13 +190,15 @@ def stale_guess_feature(sp, ops):
     grid = sp["method"]["grid"]
     if grid.get("localize_t0") or grid.get("localize_T") or grid.get("cls") == "free" or time_dep:
         deps |= {d["name"] for d in sp["params"] if d["name"].startswith("hp_")}
-    seen_q = False
+    seen_q = stale = False
     for op in ops:
         if op[0] in ("query", "solve"):
             seen_q = True
+        elif op[0] == "remethod":
+            seen_q = stale = False      # the next transcription evaluates every guess anew
         elif seen_q and op[1] in deps:
-            return True
-    return False
+            stale = True
+    return stale
 
 
 def final_values(sp, ops):
@@ -211,6 +229,9 @@ def check(case, ctx):
             apply_value(B, ocp, op[1], op[2])
         elif op[0] == "query":
             ocp.sample(B.syms[sp["states"][0]["name"]], grid="control")
+        elif op[0] == "remethod":
+            # the same method given again: the next query transcribes anew and must see the values set so far
+            ocp.method(make_method(sp["method"]))
         elif op[0] == "solve":
             try:
                 ocp.solve_limited()
